@@ -254,7 +254,7 @@ class GenericStructure(Contract):
 
     def ensures(self, ex, pre, st, a, result):
         if not isinstance(result, VT):
-            return [("returns-a-pattern", tm.FALSE)]
+            return [("returns-a-pattern", None)]
         return [("derived-structure-has-the-documented-shape", tm.eq(result.t, tm.S(generic_structure(a["cls"].cutter_info, self.role))))]
 
     def result(self, ex, st, a):
